@@ -121,3 +121,4 @@ META = dict(
     design_ref="DESIGN.md §4 C13",
     technique="CBMC bounded symbolic execution of real error paths with nondeterministic fault injection (all fault positions), SAT",
 )
+META["text"] += " 'Fault at every step' harnesses (every callee a stub that may fail, plus the proof that nothing runs after the failed step) cover the writer's init/finish/serialise stages, the main functions of tar2sqfs, gensquashfs and sqfs2tar, tar2sqfs' archive loop, gensquashfs' per-file packing, both phases of rdsquashfs unpacking and the recursive directory iterator under failing allocations."
